@@ -157,6 +157,13 @@ Theorem C20_all_dsdl_text_sinks_escaped : all_dsdl_text_sinks_escaped = true.
 Proof. exact html_sinks_escaped. Qed.
 Print Assumptions C20_all_dsdl_text_sinks_escaped.
 
+(* the inlining / recursion structure of the real macros (every call and include with the loops and conditions guarding it,
+   regenerated) is exactly the one the emitter model mirrors: every nested namespace is inlined unconditionally, every type
+   other than `_` is listed, generate_type_info recurses under exactly the ArrayType / CompositeType tests *)
+Theorem C20_html_inlining_structure : html_call_guards = expected_call_guards.
+Proof. exact html_inlining_structure. Qed.
+Print Assumptions C20_html_inlining_structure.
+
 (* non-vacuity: a two-root site with a cross-root reference in which every page's links resolve; the hypotheses of
    C20_links_resolve_partial hold for it; a page within the hypotheses of C20_emit_tree_wf *)
 Example C20_links_ok_witness : forallb (page_links_ok faithful_cfg w_site_ok) (site_pages w_site_ok) = true.
